@@ -53,7 +53,7 @@ func assumeOf(fs ...func(ssa.Value) (bool, bool)) func(ssa.Value) (bool, bool) {
 
 func c09(r *Run) {
 	w := r.W
-	ro := rolesOf(w)
+	ro := r.roles()
 	px := protoEffects(w)
 	onPrepare := w.MustFn("(*connection).onPrepare")
 	register := w.MustFn("(*connection).register")
@@ -71,11 +71,11 @@ func c09(r *Run) {
 		}
 	}
 	if nPrep == 0 {
-		broken("ANCHOR-LOST C09: no OnPrepare invocation found")
+		r.absentf(" C09: no OnPrepare invocation found")
 	}
 	regSites := callSitesOf(w, register)
 	if len(regSites) == 0 {
-		broken("ANCHOR-LOST C09: register() is never called")
+		r.absentf(" C09: register() is never called")
 	}
 	for _, site := range regSites {
 		fn := site.Parent()
@@ -188,7 +188,7 @@ func c09(r *Run) {
 		}
 	}
 	if nDis < 2 {
-		broken("ANCHOR-LOST C09: %d OnDisconnect invocation sites", nDis)
+		r.absentf(" C09: %d OnDisconnect invocation sites", nDis)
 	}
 	// who calls onDisconnect(): onHup and the connect task
 	for _, site := range callSitesOf(w, ro.onDisconnectM) {
